@@ -1212,6 +1212,12 @@ func (gt *InputObject) defineFieldMap() InputObjectFieldMap {
 		); gt.err != nil {
 			return resultFieldMap
 		}
+		if gt.err = invariantf(
+			IsInputType(fieldConfig.Type),
+			`%v.%v field type must be Input Type but got: %v.`, gt, fieldName, fieldConfig.Type,
+		); gt.err != nil {
+			return resultFieldMap
+		}
 		field := &InputObjectField{}
 		field.PrivateName = fieldName
 		field.Type = fieldConfig.Type
